@@ -370,6 +370,22 @@ def local_from_global(widen_any, narrow_global):
             _program([g, f]))
 
 
+def groovy_nested_primitive(ret_primitive):
+    """(groovy types)  void outer() { int | Integer inner(int n) = n;  int r = inner(1) }   -- a nested function (a closure in
+    groovy, a lambda in java) whose return type is a primitive type"""
+    from src.ir import groovy_types as gt
+    pint = gt.IntegerType(primitive=True)
+    rt = pint if ret_primitive else gt.IntegerType(primitive=False)
+    inner = ast.FunctionDeclaration('inner', [ast.ParameterDeclaration('n', pint)], rt, ast.Variable('n'),
+                                    ast.FunctionDeclaration.FUNCTION)
+    call = ast.FunctionCall('inner', [ast.CallArgument(ast.IntegerConstant(1, pint))])
+    r = ast.VariableDeclaration('r', call, is_final=True, var_type=rt)
+    outer = ast.FunctionDeclaration('outer', [], gt.Void, ast.Block([inner, r]), ast.FunctionDeclaration.FUNCTION)
+    p = ast.Program(Context(), 'groovy')
+    p.add_declaration(outer)
+    return 'template/groovy-nested-%s' % ('primitive' if ret_primitive else 'boxed'), p
+
+
 _BUILDERS = {}
 
 
@@ -425,6 +441,8 @@ def all_templates():
             _reg(out, generic_subclass, fw, r)
     for k in range(4):
         _reg(out, name_role, k)
+    for k in (0, 1):
+        _reg(out, groovy_nested_primitive, k)
     for a in (0, 1):
         for b in (0, 1):
             _reg(out, generic_return_only, a, b)
